@@ -192,6 +192,19 @@ Theorem repair_breaker_blocks : forall (i : rp_in) c, claim_lookup i = Found c -
 Proof. exact repair_breaker_l. Qed.
 Print Assumptions repair_breaker_blocks.
 
+(* Terminating Nodes are part of "the pool's nodes": the model (as the code) counts every listed Node.
+   A variant that leaves them out deletes during a rolling failure with 2 of 5 unhealthy. *)
+Theorem repair_skip_terminating_refuted :
+  exists i, (0 < snd (fst (repair_skip_terminating i)))%nat /\ ~ rp_holds i (snd (fst (repair_skip_terminating i))) /\
+            snd (fst (repair i)) = O.
+Proof. exact repair_skip_terminating_refuted_l. Qed.
+Print Assumptions repair_skip_terminating_refuted.
+
+Theorem repair_skip_terminating_partial : forall i : rp_in,
+  (forall n, In n (r_nodes i) -> rn_deleting n = false) -> repair_skip_terminating i = repair i.
+Proof. exact repair_skip_terminating_partial_l. Qed.
+Print Assumptions repair_skip_terminating_partial.
+
 (* no Delete while every matching policy's toleration is still running *)
 Theorem repair_tolerates : forall i : rp_in,
   (forall p, In p (r_policies i) -> matches (r_conds i) p = true -> r_now i < term_time (r_conds i) p) ->
@@ -286,9 +299,9 @@ Definition sick : list ncond := [mkCond "BadNode" "False" 0].
 Definition fine : list ncond := [mkCond "BadNode" "True" 0].
 Definition rp_example (others : list rnode) (now : Z) : rp_in :=
   mkRp "id" sick [mkRClaim "id" (Some "pool") false AnnNone] AOk [mkPolicy "BadNode" "False" (1800 * sec)] now
-       (mkRNode (Some "pool") sick :: others) AOk AOk AOk AOk.
+       (mkRNode (Some "pool") false sick :: others) AOk AOk AOk AOk.
 Definition pool5 (k : nat) : list rnode :=
-  map (fun j => mkRNode (Some "pool") (if Nat.ltb j k then sick else fine)) (seq 0 5).
+  map (fun j => mkRNode (Some "pool") false (if Nat.ltb j k then sick else fine)) (seq 0 5).
 Example repair_examples :
   repair (rp_example (pool5 1) (1800 * sec)) = (1%nat, 1%nat, ROk) /\
   repair (rp_example (pool5 1) (1800 * sec - 1)) = (O, O, RAfter 1) /\
